@@ -54,3 +54,13 @@ claim(
     "[K-bnd, also a cross-check of the trusted binary_search_by contract]; single-use values yield Some once then None [K-full].",
     trusted=["documented contract of <[T]>::binary_search_by (Tier V); for equal start indexes (n_times(0).then()) the contract allows any match - covered only by the bounded K twin against the compiled std"],
 )
+
+claim(
+    "C04",
+    "Contracts: MockAssembler::new_call_pattern assigns [cur, cur+n) to an ordered Exact(n) pattern and advances cur, leaves "
+    "unordered patterns with the empty range and cur unchanged [K-full]; lemma ranges_partition: folding that contract over any "
+    "clause list yields consecutive, pairwise disjoint ranges in clause order covering [0, sum) [V]; "
+    "find_call_pattern_for_call_order returns the first pattern whose range contains the index [K-bnd]; match_call_pattern's "
+    "InOrder arm bumps the global index by exactly one and checks exactly the owner with diagnostics on; its InAnyOrder arm leaves "
+    "the global index alone [K-bnd]; lemma ordered_history over those contracts [V].",
+)
